@@ -20,6 +20,8 @@ pub enum T {
 pub struct Case {
   pub root: T,
   pub hidden: bool,
+  /// `--ignore` (the generated trees contain no ignore files, so it must not change the listing)
+  pub ignore: bool,
   pub junk: bool,
   pub follow: bool,
   pub globs: Vec<String>,
@@ -52,13 +54,14 @@ fn t_from(v: &Value) -> Option<T> {
 
 impl Case {
   fn to_json(&self) -> Value {
-    json!({"root": t_json(&self.root), "hidden": self.hidden, "junk": self.junk, "follow": self.follow, "globs": self.globs, "specs": self.specs, "shuffle_seed": self.shuffle_seed})
+    json!({"root": t_json(&self.root), "ignore": self.ignore, "hidden": self.hidden, "junk": self.junk, "follow": self.follow, "globs": self.globs, "specs": self.specs, "shuffle_seed": self.shuffle_seed})
   }
   fn from_json(v: &Value) -> Option<Case> {
     let strs = |k: &str| -> Vec<String> { v.get(k).and_then(|a| a.as_array()).map(|a| a.iter().filter_map(|x| x.as_str().map(|s| s.to_string())).collect()).unwrap_or_default() };
     Some(Case {
       root: t_from(v.get("root")?)?,
       hidden: v.get("hidden")?.as_bool()?,
+      ignore: v.get("ignore").and_then(|b| b.as_bool()).unwrap_or(false),
       junk: v.get("junk")?.as_bool()?,
       follow: v.get("follow")?.as_bool()?,
       globs: strs("globs"),
@@ -105,6 +108,7 @@ fn gen(rng: &mut Rng) -> Case {
   Case {
     root,
     hidden: rng.chance(1, 2),
+    ignore: rng.chance(1, 3),
     junk: rng.chance(1, 2),
     follow: rng.chance(1, 2),
     globs: (0..ng).map(|_| rng.pick(&globs_pool).to_string()).collect(),
@@ -308,6 +312,11 @@ fn observe(ctx: &Ctx, c: &Case) -> Obs {
   if c.hidden {
     args.push("--include-hidden".into());
   }
+  if c.ignore {
+    // the sandbox is its own repository root, so that ignore files of enclosing directories do not apply
+    sb.mkdir(".git");
+    args.push("--ignore".into());
+  }
   if c.junk {
     args.push("--include-junk".into());
   }
@@ -354,7 +363,7 @@ pub fn run(ctx: &Ctx) -> Report {
     let want = spec(c);
     let nontrivial = matches!(&c.root, T::Dir(es) if es.len() >= 2) && (!c.globs.is_empty() || !c.specs.is_empty() || c.follow);
     report.case(if nontrivial { Some(fnv_str(&case.to_string())) } else { None });
-    report.hit(&format!("flags:h{}j{}f{}", c.hidden as u8, c.junk as u8, c.follow as u8));
+    report.hit(&format!("flags:h{}j{}f{}i{}", c.hidden as u8, c.junk as u8, c.follow as u8, c.ignore as u8));
     report.hit(&format!("globs:{}", c.globs.len()));
     report.hit(&format!("specs:{}", c.specs.len()));
     report.hit(match &c.root {
